@@ -11,4 +11,14 @@ CLAIMED = {
         "technique": "Coq proof over regenerated facts + vm_compute model/impl correspondence",
     },
 }
+CLAIMED["C03"] = {
+    "text": "Theorems over the resolver model with max_attempts, the AUTO word-index expression, the strict nesting-level test and the "
+            "exhaustion error regenerated from conflicts.py, for ALL forests and ANY option-string function: success => all registered "
+            "option strings pairwise distinct (C03_resolved_options_unique); only prefixes change (C03_frame); NONE raises iff a clash exists; "
+            "every failure is a ConflictResolutionError; without user prefixes every final prefix is a suffix of the destination path "
+            "(C03_auto_suffix/C03_suffix_name), full path or nothing under EXPLICIT. 'A field whose name clashes with nothing keeps its bare name' "
+            "and 'passing an option changes exactly its leaf' are evaluated by the Coq spec on every observed parser (sampled, not proved).",
+    "note": COMMON_NOTE + "The traversal order of field wrappers is computed by the harness and compared with the implementation's in every case.",
+    "technique": "Coq proof over regenerated facts + vm_compute model/impl correspondence",
+}
 NOT_CLAIMED = {}
